@@ -1,5 +1,5 @@
-//! C07 — tables are insertion-ordered maps keyed by value (host-API path; the script path lives
-//! in the program-level checks and reuses the same model).
+//! C07 — tables are insertion-ordered maps keyed by value (host-API path in every case; one case
+//! in 24 also runs the same history as a card program, see "script family" below).
 //!
 //! Histories over 1..4 tables with aliasing (a table stored as a field of another and mutated
 //! through it). Oracle: `Vec<(key, value)>` with linear search, compared after every op.
@@ -86,7 +86,26 @@ fn gen_key(c: &mut Choices) -> MV {
     }
 }
 
+/// choices of the script family, drawn AFTER the history so that the decoding of the history
+/// itself (and of the committed replay files) is what it always was
+#[derive(Debug, Clone, Default)]
+struct ScriptPlan {
+    on: bool,
+    /// per op: how the table is reached (variable, global alias, helper function parameter,
+    /// captured variable of a closure, field of a holder table read with the dotted shorthand)
+    paths: Vec<u8>,
+    /// loop-variable subset of the final for-each dumps
+    fe_vars: u8,
+    /// dump every table also after this op
+    mid_dump: usize,
+}
+
 fn decode(bytes: &[u8]) -> (usize, Vec<Op>) {
+    let (nt, ops, _) = decode_all(bytes);
+    (nt, ops)
+}
+
+fn decode_all(bytes: &[u8]) -> (usize, Vec<Op>, ScriptPlan) {
     let mut c = Choices::new(bytes);
     let nt = 1 + c.draw(4);
     let n = c.draw(121);
@@ -113,7 +132,15 @@ fn decode(bytes: &[u8]) -> (usize, Vec<Op>) {
         };
         ops.push(op);
     }
-    (nt, ops)
+    let mut plan = ScriptPlan::default();
+    // 0 (exhausted input) = host family only
+    plan.on = c.draw(24) == 23;
+    if plan.on {
+        plan.fe_vars = c.draw(6) as u8;
+        plan.mid_dump = c.draw(ops.len() + 1);
+        plan.paths = ops.iter().map(|_| c.draw(6) as u8).collect();
+    }
+    (nt, ops, plan)
 }
 
 #[derive(Debug, Clone, PartialEq)]
@@ -339,15 +366,369 @@ fn run_history(nt: usize, ops: &[Op], obs: &mut Obs) -> Option<Failure> {
     None
 }
 
+// ---------------------------------------------------------------------------------------------
+// script family: the same history as a card program (SetProperty / GetProperty / AppendTable /
+// PopTable / Len / Get / ForEach cards, dotted variable shorthand), every table reached through
+// variables, global aliases, function parameters, captured variables and fields of a holder table.
+// Oracle: the same Vec<(key, value)> model; the expected host-call log is computed from the model
+// while the program is put together. The reference interpreter runs the program too: it must
+// agree with the model (a disagreement is a harness fault, reported as such), and whatever it
+// marks undefined is discarded.
+// ---------------------------------------------------------------------------------------------
+
+use crate::genprog::log_stmt;
+use crate::ir::{program_json, ClosureDef, Expr, FuncDef, ModuleDef, Program, Stmt};
+use crate::observe::{compile_program, log_eq, run_vm, RunCfg};
+use crate::refsem::{run_reference, ErrKind};
+use std::rc::Rc;
+
+fn key_expr(k: &MV) -> Expr {
+    match k {
+        MV::Nil => Expr::Nil,
+        MV::Int(i) => Expr::Int(*i),
+        MV::Real(r) => Expr::Real(*r),
+        MV::Str(s) => Expr::Str(s.clone()),
+        _ => Expr::Nil,
+    }
+}
+
+fn ident_like(s: &str) -> bool {
+    !s.is_empty() && s.chars().all(|c| c.is_ascii_alphabetic())
+}
+
+fn reaches(model: &[MTable], from: usize, to: usize, depth: u32) -> bool {
+    if from == to {
+        return true;
+    }
+    if depth > 8 {
+        return true;
+    }
+    model[from].iter().any(|(_, v)| matches!(v, MVal::Table(j) if reaches(model, *j, to, depth + 1)))
+}
+
+struct Script {
+    body: Vec<Stmt>,
+    expected: Vec<(String, Vec<MV>)>,
+    closures: usize,
+    fe: usize,
+    used_paths: [bool; 6],
+}
+
+impl Script {
+    fn log(&mut self, e: Expr, exp: MV) {
+        self.body.push(log_stmt(e));
+        self.expected.push(("log".into(), vec![exp]));
+    }
+    /// expression denoting table `t` reached by `path`
+    fn table(&mut self, t: usize, path: u8) -> Expr {
+        match path {
+            1 => Expr::Var(format!("gt{}", t)),
+            4 => Expr::Var(format!("h.f{}", t)),
+            5 => Expr::GetProp(Box::new(Expr::Var("h".into())), Box::new(Expr::Str(format!("f{}", t)))),
+            _ => Expr::Var(format!("t{}", t)),
+        }
+    }
+    fn closure(&mut self, body: Vec<Stmt>) -> Expr {
+        let id = self.closures;
+        self.closures += 1;
+        Expr::DynCall(Box::new(Expr::Closure(Rc::new(ClosureDef { id, params: vec![], body }))), vec![])
+    }
+    /// the value of `tbl[key]` (read), through the access path
+    fn read(&mut self, t: usize, path: u8, key: &MV) -> Expr {
+        self.used_paths[path as usize % 6] = true;
+        let te = self.table(t, path);
+        match path {
+            2 => Expr::Call("fget".into(), 1, vec![key_expr(key), te]),
+            3 => self.closure(vec![Stmt::Return(Expr::GetProp(Box::new(te), Box::new(key_expr(key))))]),
+            4 => match key {
+                MV::Str(s) if ident_like(s) => Expr::Var(format!("h.f{}.{}", t, s)),
+                _ => Expr::GetProp(Box::new(te), Box::new(key_expr(key))),
+            },
+            0 => match key {
+                MV::Str(s) if ident_like(s) => Expr::Var(format!("t{}.{}", t, s)),
+                _ => Expr::GetProp(Box::new(te), Box::new(key_expr(key))),
+            },
+            _ => Expr::GetProp(Box::new(te), Box::new(key_expr(key))),
+        }
+    }
+    fn set(&mut self, t: usize, path: u8, key: &MV, val: Expr) {
+        self.used_paths[path as usize % 6] = true;
+        let te = self.table(t, path);
+        let st = match path {
+            // declared (v, t, k): the first supplied argument binds to the last declared parameter
+            2 => Stmt::SetGlobal(crate::genprog::SINK.into(), Expr::Call("fset".into(), 2, vec![key_expr(key), te, val])),
+            3 => {
+                let c = self.closure(vec![Stmt::SetProp(val, te, key_expr(key))]);
+                Stmt::SetGlobal(crate::genprog::SINK.into(), c)
+            }
+            _ => Stmt::SetProp(val, te, key_expr(key)),
+        };
+        self.body.push(st);
+    }
+    fn append(&mut self, te: Expr, path: u8, val: Expr) {
+        self.used_paths[path as usize % 6] = true;
+        let st = match path {
+            2 => Stmt::SetGlobal(crate::genprog::SINK.into(), Expr::Call("fappend".into(), 3, vec![te, val])),
+            3 => {
+                let c = self.closure(vec![Stmt::Append(val, te)]);
+                Stmt::SetGlobal(crate::genprog::SINK.into(), c)
+            }
+            _ => Stmt::Append(val, te),
+        };
+        self.body.push(st);
+    }
+    /// log what the model says a fetched entry is: the integer, nil, or - for a table - its length
+    fn log_fetched(&mut self, e: Expr, exp: Option<&MVal>, model: &[MTable]) {
+        match exp {
+            None => self.log(e, MV::Nil),
+            Some(MVal::Int(i)) => self.log(e, MV::Int(*i)),
+            Some(MVal::Table(j)) => self.log(Expr::Len(Box::new(e)), MV::Int(model[*j].len() as i64)),
+        }
+    }
+    fn dump(&mut self, nt: usize, model: &[MTable], fe_vars: u8) {
+        for t in 0..nt {
+            let m = &model[t];
+            let path = ((t + self.fe) % 2) as u8; // variable or global alias
+            let te = self.table(t, path);
+            self.log(Expr::Len(Box::new(te.clone())), MV::Int(m.len() as i64));
+            let has_table_val = m.iter().any(|(_, v)| matches!(v, MVal::Table(_)));
+            let n = self.fe;
+            self.fe += 1;
+            let (iv, kv, vv) = (format!("i{}", n), format!("k{}", n), format!("v{}", n));
+            let subset = if has_table_val { fe_vars % 3 } else { fe_vars };
+            // 0: i k   1: k   2: i   3: i k v   4: k v   5: v
+            let (ui, uk, uv) = match subset {
+                0 => (true, true, false),
+                1 => (false, true, false),
+                2 => (true, false, false),
+                3 => (true, true, true),
+                4 => (false, true, true),
+                _ => (false, false, true),
+            };
+            let mut args = vec![];
+            if ui {
+                args.push(Expr::Var(iv.clone()));
+            }
+            if uk {
+                args.push(Expr::Var(kv.clone()));
+            }
+            if uv {
+                args.push(Expr::Var(vv.clone()));
+            }
+            let name = ["log", "log2", "log3"][args.len() - 1];
+            self.body.push(Stmt::ForEach {
+                i: ui.then(|| iv.clone()),
+                k: uk.then(|| kv.clone()),
+                v: uv.then(|| vv.clone()),
+                iterable: te.clone(),
+                body: Box::new(Stmt::SetGlobal(crate::genprog::SINK.into(), Expr::CallNative(name.into(), args))),
+            });
+            for (idx, (k, v)) in m.iter().enumerate() {
+                let mut a = vec![];
+                if ui {
+                    a.push(MV::Int(idx as i64));
+                }
+                if uk {
+                    a.push(k.clone());
+                }
+                if uv {
+                    a.push(match v {
+                        MVal::Int(i) => MV::Int(*i),
+                        MVal::Table(_) => MV::Nil,
+                    });
+                }
+                self.expected.push((name.into(), a));
+            }
+            // row by index: key (and integer value) of every row, and one row beyond the end
+            // unless the table has a nil key (then the statement does not say what comes back)
+            for (idx, (k, v)) in m.iter().enumerate() {
+                let row = Expr::Get(Box::new(te.clone()), Box::new(Expr::Int(idx as i64)));
+                self.log(Expr::GetProp(Box::new(row.clone()), Box::new(Expr::Str("key".into()))), k.clone());
+                if let MVal::Int(i) = v {
+                    self.log(Expr::GetProp(Box::new(row), Box::new(Expr::Str("value".into()))), MV::Int(*i));
+                }
+            }
+            // every present key read back through a fresh literal
+            for (k, v) in m.iter() {
+                let e = Expr::GetProp(Box::new(te.clone()), Box::new(key_expr(k)));
+                let vv = v.clone();
+                self.log_fetched(e, Some(&vv), model);
+            }
+        }
+    }
+}
+
+fn helper(id: usize, name: &str, params: &[&str], body: Vec<Stmt>) -> FuncDef {
+    FuncDef { id, name: name.into(), module: vec![], params: params.iter().map(|s| s.to_string()).collect(), body }
+}
+
+/// (program, expected host-call log, access paths used)
+fn script_of(nt: usize, ops: &[Op], plan: &ScriptPlan) -> (Program, Vec<(String, Vec<MV>)>, [bool; 6], bool) {
+    let v = |n: &str| Expr::Var(n.to_string());
+    let mut sc = Script { body: vec![], expected: vec![], closures: 0, fe: 0, used_paths: [false; 6] };
+    let mut model: Vec<MTable> = vec![vec![]; nt];
+    let mut pop_then_use = false;
+    let mut popped = vec![false; nt];
+    sc.body.push(Stmt::SetVar("h".into(), Expr::CreateTable));
+    for t in 0..nt {
+        sc.body.push(Stmt::SetVar(format!("t{}", t), Expr::CreateTable));
+        sc.body.push(Stmt::SetGlobal(format!("gt{}", t), v(&format!("t{}", t))));
+        sc.body.push(Stmt::SetProp(v(&format!("t{}", t)), v("h"), Expr::Str(format!("f{}", t))));
+    }
+    let mut iters = 0;
+    for (step, op) in ops.iter().enumerate() {
+        let path = plan.paths.get(step).copied().unwrap_or(0);
+        match op {
+            Op::Set(t, k, val) => {
+                sc.set(*t, path, k, Expr::Int(*val));
+                mset(&mut model[*t], k, MVal::Int(*val));
+                pop_then_use |= popped[*t];
+            }
+            Op::Get(t, k) | Op::Remove(t, k) => {
+                let e = sc.read(*t, path, k);
+                let exp = mfind(&model[*t], k).map(|i| model[*t][i].1.clone());
+                sc.log_fetched(e, exp.as_ref(), &model);
+                pop_then_use |= popped[*t];
+            }
+            Op::Append(t, val) => {
+                let te = sc.table(*t, path);
+                sc.append(te, path, Expr::Int(*val));
+                mappend(&mut model[*t], MVal::Int(*val));
+                pop_then_use |= popped[*t];
+            }
+            Op::Pop(t) => {
+                let te = sc.table(*t, path);
+                sc.used_paths[path as usize % 6] = true;
+                let e = match path {
+                    2 => Expr::Call("fpop".into(), 4, vec![te]),
+                    3 => sc.closure(vec![Stmt::Return(Expr::PopTable(Box::new(te)))]),
+                    _ => Expr::PopTable(Box::new(te)),
+                };
+                let exp = model[*t].pop().map(|(_, v)| v);
+                sc.log_fetched(e, exp.as_ref(), &model);
+                popped[*t] = true;
+            }
+            Op::Len(t) => {
+                let te = sc.table(*t, path);
+                sc.log(Expr::Len(Box::new(te)), MV::Int(model[*t].len() as i64));
+            }
+            Op::NthKey(t, i) => {
+                if *i < model[*t].len() {
+                    let te = sc.table(*t, path);
+                    let row = Expr::Get(Box::new(te), Box::new(Expr::Int(*i as i64)));
+                    sc.log(Expr::GetProp(Box::new(row), Box::new(Expr::Str("key".into()))), model[*t][*i].0.clone());
+                }
+            }
+            Op::Iter(_) => {
+                if iters < 2 {
+                    iters += 1;
+                    sc.dump(nt, &model, (plan.fe_vars + iters) % 6);
+                }
+            }
+            Op::StoreAlias(outer, k, inner) => {
+                // a table reachable from itself is outside what the properties define
+                if !reaches(&model, *inner, *outer, 0) {
+                    let ie = sc.table(*inner, (path + 1) % 2);
+                    sc.set(*outer, path, k, ie);
+                    mset(&mut model[*outer], k, MVal::Table(*inner));
+                }
+            }
+            Op::SetViaAlias(outer, k, k2, val) => {
+                if let Some(MVal::Table(inner)) = mfind(&model[*outer], k).map(|i| model[*outer][i].1.clone()) {
+                    let fetched = sc.read(*outer, path, k);
+                    sc.body.push(Stmt::SetProp(Expr::Int(*val), fetched, key_expr(k2)));
+                    mset(&mut model[inner], k2, MVal::Int(*val));
+                }
+            }
+            Op::AppendViaAlias(outer, k, val) => {
+                if let Some(MVal::Table(inner)) = mfind(&model[*outer], k).map(|i| model[*outer][i].1.clone()) {
+                    let fetched = sc.read(*outer, path, k);
+                    sc.body.push(Stmt::Append(Expr::Int(*val), fetched));
+                    mappend(&mut model[inner], MVal::Int(*val));
+                }
+            }
+        }
+        if plan.mid_dump == step + 1 && iters < 3 {
+            iters += 1;
+            sc.dump(nt, &model, (plan.fe_vars + 3) % 6);
+        }
+    }
+    sc.dump(nt, &model, plan.fe_vars);
+    let gp = |t: &str, k: &str| Expr::GetProp(Box::new(v(t)), Box::new(v(k)));
+    let funcs = vec![
+        helper(0, "main", &[], sc.body),
+        helper(1, "fget", &["t", "k"], vec![Stmt::Return(gp("t", "k"))]),
+        helper(2, "fset", &["v", "t", "k"], vec![Stmt::SetProp(v("v"), v("t"), v("k"))]),
+        helper(3, "fappend", &["v", "t"], vec![Stmt::Append(v("v"), v("t"))]),
+        helper(4, "fpop", &["t"], vec![Stmt::Return(Expr::PopTable(Box::new(v("t"))))]),
+    ];
+    let mut globals = vec![crate::genprog::SINK.to_string()];
+    for t in 0..nt {
+        globals.push(format!("gt{}", t));
+    }
+    let prog = Program {
+        funcs,
+        root: ModuleDef { name: String::new(), functions: vec![0, 1, 2, 3, 4], submodules: vec![], imports: vec![] },
+        globals: vec![],
+    };
+    let _ = globals;
+    (prog, sc.expected, sc.used_paths, pop_then_use)
+}
+
+/// run the script family; None = discarded (outside the defined semantics)
+fn run_script(nt: usize, ops: &[Op], plan: &ScriptPlan, labels: &mut Vec<String>) -> Result<Option<Failure>, &'static str> {
+    let (prog, expected, used, _) = script_of(nt, ops, plan);
+    let r = run_reference(&prog, 400_000);
+    match &r.outcome {
+        Err(ErrKind::Undefined(w)) => return Err(w),
+        Err(e) => {
+            return Ok(Some(Failure::new(
+                "harness_script_model",
+                "c07s:harness:reference_outcome",
+                format!("HARNESS FAULT: the reference interpreter ends the table script with {:?}", e.name()),
+            )))
+        }
+        Ok(()) => {}
+    }
+    if let Some(d) = log_eq(&r.log, &expected) {
+        return Ok(Some(Failure::new(
+            "harness_script_model",
+            "c07s:harness:reference_vs_table_model",
+            format!("HARNESS FAULT: reference interpreter and table model disagree on the script: {}", d),
+        )));
+    }
+    for (i, n) in ["var", "global_alias", "fn_param", "captured", "dotted_field", "holder_field"].iter().enumerate() {
+        if used[i] {
+            labels.push(format!("script_path:{}", n));
+        }
+    }
+    let compiled = match compile_program(&prog) {
+        Ok(c) => c,
+        Err(e) => return Ok(Some(Failure::new("script_compiles", "c07s:compile_error", format!("table script rejected by the compiler: {}", e)))),
+    };
+    let obs = run_vm(&compiled, &[], &RunCfg::default());
+    if obs.outcome != Ok(()) {
+        return Ok(Some(Failure::new(
+            "script_outcome",
+            &format!("c07s:outcome:{}", obs.outcome.clone().unwrap_err()),
+            format!("table script fails with {:?} ({:?}); the model says every step is defined", obs.outcome, obs.detail),
+        )));
+    }
+    if let Some(d) = log_eq(&obs.log, &expected) {
+        return Ok(Some(Failure::new("script_table_ops", "c07s:script_table_ops", format!("script path: {}", d))));
+    }
+    Ok(None)
+}
+
 impl Property for C07 {
     fn id(&self) -> &'static str {
         "C07"
     }
     fn rule(&self) -> &'static str {
-        "case = history of <=120 ops (set get append pop len nth_key iter remove store-table-as-field write-through-field) over 1..4 tables created with Vm::init_table, keys from a pool built to collide and to probe equality (small ints, ints with identical home slots at capacities 8/12/18/27/40, ints whose hash is the reserved 0, ints >= 2^53, negative, finite non-zero reals, strings re-created as distinct objects for every lookup, nil); reference = Vec<(key,value)> with linear search compared after EVERY op on EVERY table: len, iteration order of keys and values, keys(), nth_key, get of every present key through a fresh equal key; results of get/pop/append-key. non-trivial = a pop or remove was followed by further ops on that table, or a table held >= 9 keys (one growth), or a write went through an alias; distinct by hash of the decoded history"
+        "case = history of <=120 ops (set get append pop len nth_key iter remove store-table-as-field write-through-field) over 1..4 tables created with Vm::init_table, keys from a pool built to collide and to probe equality (small ints, ints with identical home slots at capacities 8/12/18/27/40, ints whose hash is the reserved 0, ints >= 2^53, negative, finite non-zero reals, strings re-created as distinct objects for every lookup, nil); reference = Vec<(key,value)> with linear search compared after EVERY op on EVERY table: len, iteration order of keys and values, keys(), nth_key, get of every present key through a fresh equal key; results of get/pop/append-key. non-trivial = a pop or remove was followed by further ops on that table, or a table held >= 9 keys (one growth), or a write went through an alias; distinct by hash of the decoded history. Script family (1 case in 24): the same history as a card program (SetProperty / GetProperty / AppendTable / PopTable / Len / Get cards, for-each with every subset of i,k,v, dotted variable shorthand), every table reached per op through a variable, a global alias, a function parameter, a variable captured by a closure or a field of a holder table; the expected host-call log (every get / pop / len result, and dumps of every table: len, for-each rows, row-by-index keys and values, every present key read back) is computed from the same Vec model while the program is put together; the reference interpreter must agree with the model (else a harness fault is reported) and discards what it marks undefined"
     }
     fn assumptions(&self) -> Vec<String> {
-        vec!["host path only in this check; the script path (SetProperty/GetProperty/AppendTable/PopTable/Len/Get/ForEach cards) is exercised by the program-level checks with the same model".into()]
+        vec!["host path in every case, script path (SetProperty/GetProperty/AppendTable/PopTable/Len/Get/ForEach cards) in 1 case of 24; scripts never build a table reachable from itself and never read a row beyond the end".into()]
     }
     fn max_len(&self) -> usize {
         900
@@ -362,15 +743,31 @@ impl Property for C07 {
         std::time::Duration::from_secs(30)
     }
     fn describe(&self, bytes: &[u8]) -> J {
-        let (nt, ops) = decode(bytes);
-        json!({"tables": nt, "ops": ops.iter().map(|o| format!("{:?}", o)).collect::<Vec<_>>()})
+        let (nt, ops, plan) = decode_all(bytes);
+        let mut j = json!({"tables": nt, "ops": ops.iter().map(|o| format!("{:?}", o)).collect::<Vec<_>>()});
+        if plan.on {
+            let (prog, _, _, _) = script_of(nt, &ops, &plan);
+            j["script_family"] = json!({"access_paths": plan.paths, "program": program_json(&prog)});
+        }
+        j
     }
     fn run(&self, bytes: &[u8], _tier: Tier) -> CaseOut {
-        let (nt, ops) = decode(bytes);
-        let fp = fnv64(format!("{:?}", (&nt, &ops)).as_bytes());
+        let (nt, ops, plan) = decode_all(bytes);
+        let fp = fnv64(format!("{:?}", (&nt, &ops, &plan)).as_bytes());
         let mut obs = Obs { pop_then_use: false, grew: false, alias_write: false, remove_then_use: false, zero_hash: false };
-        let fail = run_history(nt, &ops, &mut obs);
+        let mut fail = run_history(nt, &ops, &mut obs);
         let mut labels = vec![];
+        let mut execs = 1;
+        if plan.on && fail.is_none() {
+            match run_script(nt, &ops, &plan, &mut labels) {
+                Ok(f) => {
+                    labels.push("script_family".to_string());
+                    execs += 1;
+                    fail = f;
+                }
+                Err(w) => labels.push(format!("script_discarded:{}", w)),
+            }
+        }
         for (b, l) in [
             (obs.pop_then_use, "pop_then_use"),
             (obs.grew, "grew"),
@@ -390,10 +787,10 @@ impl Property for C07 {
             nontrivial: obs.pop_then_use || obs.grew || obs.alias_write || obs.remove_then_use,
             labels,
             fingerprint: fp,
-            execs: 1,
+            execs,
         }
     }
     fn label_floors(&self) -> Vec<(&'static str, f64)> {
-        vec![("pop_then_use", 0.2), ("grew", 0.05), ("alias_write", 0.03)]
+        vec![("pop_then_use", 0.2), ("grew", 0.05), ("alias_write", 0.03), ("script_family", 0.1), ("script_path:captured", 0.05), ("script_path:fn_param", 0.05)]
     }
 }
